@@ -74,8 +74,46 @@ theorem givenMatchesL_iff {α} [DecidableEq α] (H : Hier α) (err : α) (cs : L
           rw [hsub] at this; exact absurd this (by decide)
         · exact ⟨d, hd, hs⟩
 
+/-- the single-inheritance functions are the general ones at `mro H` -/
+theorem givenMatches_eq_M {α} [DecidableEq α] (H : Hier α) (err : α) (sp : ExcSpec α) :
+    givenMatches H err sp = givenMatchesM (mro H) err sp := by
+  cases sp with
+  | one c => rfl
+  | tuple cs =>
+    simp only [givenMatches, givenMatchesM]
+    induction cs with
+    | nil => rfl
+    | cons c cs ih =>
+      unfold givenMatchesL givenMatchesLM
+      rw [ih]
+      rfl
+
+theorem givenMatchesLM_iff {α} [DecidableEq α] (mroOf : α → List α) (err : α) (cs : List α) :
+    givenMatchesLM mroOf err cs = true ↔ ∃ c ∈ cs, c ∈ mroOf err := by
+  induction cs with
+  | nil => simp [givenMatchesLM]
+  | cons c cs ih =>
+    unfold givenMatchesLM
+    by_cases h : isSubtypeM mroOf err c = true
+    · simp only [h, if_true, true_iff]
+      exact ⟨c, List.mem_cons_self, (isSubtypeL_iff _ _).mp h⟩
+    · rw [if_neg h, ih]
+      constructor
+      · intro ⟨d, hd, hm⟩; exact ⟨d, List.mem_cons_of_mem _ hd, hm⟩
+      · intro ⟨d, hd, hm⟩
+        rcases List.mem_cons.mp hd with hd | hd
+        · subst hd; exact absurd ((isSubtypeL_iff _ _).mpr hm) h
+        · exact ⟨d, hd, hm⟩
+
 theorem ancestors_eq_isSubtype (e c : Cls) : (ancestors e).contains c = isSubtype builtinHier e c := by
   cases e <;> cases c <;> rfl
+
+@[simp] theorem hdInfo_some (c : Cls) (l : Nat) : hdInfo (some (c, l)) = ⟨some c, .excv c, some [l]⟩ := rfl
+
+/-- the three values pushed on handler entry give the saved exception back exactly -/
+@[simp] theorem savedOf_typeVal (e : ExcInfo) : savedOf (typeVal e.type) e.value (.tb e.tb) = e := by
+  obtain ⟨t, v, tb⟩ := e
+  cases t <;> rfl
 
 theorem catches_iff (cs : List Cls) (err : Cls) : catches cs err = true ↔ Catches Cls.base err cs := by
   unfold catches Catches
@@ -368,8 +406,8 @@ theorem unwindBlock_eq {lvl : Nat} {st : List Val} (h : lvl ≤ st.length) : unw
     simp [hc, this]
 
 theorem unwindExceptHandler_ok {lvl : Nat} {st : List Val} (h : lvl + 3 ≤ st.length) :
-    ∃ e, unwindExceptHandler lvl st = some (cut lvl st, e) := by
-  unfold unwindExceptHandler
+    unwindExceptHandler lvl st = some (cut lvl st, savedAt lvl st) := by
+  unfold unwindExceptHandler savedAt cutTo
   have h1 : ¬ st.length < lvl + 3 := by omega
   simp only [h1, if_false]
   have hlen : (st.drop (st.length - (lvl + 3))).length = lvl + 3 := by rw [List.length_drop]; omega
@@ -378,8 +416,7 @@ theorem unwindExceptHandler_ok {lvl : Nat} {st : List Val} (h : lvl + 3 ≤ st.l
   | [_] => rw [hd] at hlen; simp at hlen
   | [_, _] => rw [hd] at hlen; simp at hlen
   | t :: v :: tbv :: rest =>
-    refine ⟨{ type := t.asType, value := v, tb := tbv.asTb }, ?_⟩
-    simp only
+    simp only [savedOf]
     have : rest = cut lvl st := by
       unfold cut cutTo
       have e : st.length - lvl = (st.length - (lvl + 3)) + 3 := by omega
@@ -391,7 +428,8 @@ theorem unwindExceptHandler_ok {lvl : Nat} {st : List Val} (h : lvl + 3 ≤ st.l
 block, the handled exception) changes -/
 theorem unwind1_skip {W} (vm : VM W) (b : Block) (bs : List Block)
     (hsel : Selects b.kind vm.why = false) (hok : BlocksOK (b :: bs) vm.stack.length) :
-    ∃ e, unwind1 vm b bs = .again { vm with blocks := bs, stack := cut b.level vm.stack, exc := e } := by
+    unwind1 vm b bs = .again { vm with blocks := bs, stack := cut b.level vm.stack,
+                                       exc := (if b.kind = .handler then savedAt b.level vm.stack else vm.exc) } := by
   obtain ⟨k, h, l⟩ := b
   obtain ⟨hl, _⟩ := hok
   cases k
@@ -399,19 +437,16 @@ theorem unwind1_skip {W} (vm : VM W) (b : Block) (bs : List Block)
     simp only [BKind.noConfusion, if_false] at hl
     have h1 : vm.why ≠ .cont := by intro hc; rw [hc] at hsel; simp [Selects] at hsel
     have h2 : vm.why ≠ .brk := by intro hc; rw [hc] at hsel; simp [Selects] at hsel
-    refine ⟨vm.exc, ?_⟩
     simp [unwind1, h1, h2, unwindBlock_eq hl]
   · -- except
     simp only [BKind.noConfusion, if_false] at hl
     have h1 : vm.why ≠ .exception := by intro hc; rw [hc] at hsel; simp [Selects] at hsel
-    refine ⟨vm.exc, ?_⟩
     simp [unwind1, h1, unwindBlock_eq hl]
   · -- finally
     simp [Selects] at hsel
   · -- handler
     simp only [if_true] at hl
-    obtain ⟨e, he⟩ := unwindExceptHandler_ok hl
-    refine ⟨e, ?_⟩
+    have he := unwindExceptHandler_ok hl
     simp [unwind1, he]
 
 /-- the value stack when the blocks `pre` have been popped -/
@@ -428,23 +463,40 @@ theorem BlocksOK_level {b : Block} {bs : List Block} {n : Nat} (h : BlocksOK (b 
 theorem unwindL_skip {W} (pre : List Block) : ∀ (vm : VM W) (tail : List Block),
     vm.blocks = pre ++ tail →
     (∀ x ∈ pre, Selects x.kind vm.why = false) → BlocksOK (pre ++ tail) vm.stack.length →
-    ∃ e, unwindL (pre ++ tail) vm =
-           unwindL tail { vm with blocks := tail, stack := stackAfter pre vm.stack, exc := e } ∧
-         BlocksOK tail (stackAfter pre vm.stack).length := by
+    unwindL (pre ++ tail) vm =
+      unwindL tail { vm with blocks := tail, stack := stackAfter pre vm.stack, exc := excAfter pre vm.stack vm.exc } ∧
+    BlocksOK tail (stackAfter pre vm.stack).length := by
   induction pre with
   | nil =>
     intro vm tail hb _ hok
-    refine ⟨vm.exc, ?_, hok⟩
+    refine ⟨?_, hok⟩
     simp only [List.nil_append] at hb
     subst hb
     rfl
   | cons b pre ih =>
     intro vm tail hb hsel hok
-    obtain ⟨e1, h1⟩ := unwind1_skip vm b (pre ++ tail) (hsel b List.mem_cons_self) hok
+    have h1 := unwind1_skip vm b (pre ++ tail) (hsel b List.mem_cons_self) hok
     have hlen : (cut b.level vm.stack).length = b.level := cut_length (BlocksOK_level hok)
-    obtain ⟨e2, h2, h3⟩ := ih { vm with blocks := pre ++ tail, stack := cut b.level vm.stack, exc := e1 } tail rfl
+    let e1 : ExcInfo := if b.kind = .handler then savedAt b.level vm.stack else vm.exc
+    obtain ⟨h2, h3⟩ := ih { vm with blocks := pre ++ tail, stack := cut b.level vm.stack, exc := e1 } tail rfl
       (fun x hx => hsel x (List.mem_cons_of_mem _ hx)) (by simp only [hlen]; exact hok.2)
-    refine ⟨e2, ?_, h3⟩
-    simp only [List.cons_append, unwindL, h1, h2, stackAfter]
+    refine ⟨?_, h3⟩
+    simp only [List.cons_append, unwindL, h1, stackAfter, excAfter]
+    exact h2
+
+theorem excAfter_noHandler (pre : List Block) : ∀ (S : List Val) (e : ExcInfo),
+    (∀ x ∈ pre, x.kind ≠ .handler) → excAfter pre S e = e := by
+  induction pre with
+  | nil => intro S e _; rfl
+  | cons x pre ih =>
+    intro S e h
+    have hx : x.kind ≠ .handler := h x List.mem_cons_self
+    simp only [excAfter, hx, if_false]
+    exact ih _ e (fun y hy => h y (List.mem_cons_of_mem _ hy))
+
+theorem addCalls_ok (lns : List Nat) (r : CallRes) (h : CallOK r) : CallOK (addCalls lns r) := by
+  cases r with
+  | val v => exact h
+  | exc e => exact ⟨h.1, _, rfl⟩
 
 end GPy.C02
